@@ -404,12 +404,12 @@ GRAM_MSG = {
 
 def run(tier, seed):
     rng = random.Random(seed)
-    n_specs = 60 if tier == "quick" else 800
+    n_specs = 80 if tier == "quick" else 3500
     violations = []
     out = dict(rule=[], gram=[], sp=[], close=[])
     stats = dict(newrules={}, distinct=set())
     feats = {}
-    n_sp_budget = 40 if tier == "quick" else 600
+    n_sp_budget = 40 if tier == "quick" else 2500
     for i in range(n_specs):
         k = i % 6
         if k in (0, 1, 2):
